@@ -69,7 +69,7 @@ pub fn run(ctx: &mut Ctx) {
     let cfg = GenCfg::standard();
     let n = ctx.n(700, 50_000);
     let cases = matcher_cases(prop, ctx, &cfg, n);
-    ctx.ev.rule = "corpus + fixtures + generated ledgers (fees on every trade, partial lots, same-day/30-day/pool mixes, splits, cost events while shares are held). Oracle on the real matcher's full-precision output: per security Σ legs' allowable cost + closing cost − Σ (q·p + fees) = Σ signed cost events that took effect (events dated when the position was positive; with splits present: some subset of the events). Correspondence: costs of legs (per rule and acquisition date) and closing cost vs the Lean model. Known-finding class zeroQuantityBuyWithCost (D14) is probed with two fixed ledgers. Non-trivial = accepted ledger with ≥ 2 rules in use and a fee > 0, or an effective cost event; distinct by ledger text.".into();
+    ctx.ev.rule = "corpus + fixtures + generated ledgers (fees on every trade, partial lots, same-day/30-day/pool mixes, splits, cost events while shares are held; plus two lots of very different unit cost followed by a capital return that exceeds the cheap lot's own cost per share). Oracle on the real matcher's full-precision output: per security Σ legs' allowable cost + closing cost − Σ (q·p + fees) = Σ signed cost events that took effect (events dated when the position was positive; with splits present: some subset of the events). Correspondence: costs of legs (per rule and acquisition date) and closing cost vs the Lean model. Known-finding class zeroQuantityBuyWithCost (D14) is probed with two fixed ledgers. Non-trivial = accepted ledger with ≥ 2 rules in use and a fee > 0, or an effective cost event; distinct by ledger text.".into();
     // known finding D14 (class zeroQuantityBuyWithCost): the ledgers below are not validator-clean, so the
     // theorems (which assume WellFormed) and the main loop skip them; `report` accepts them all the same
     {
@@ -89,7 +89,37 @@ pub fn run(ctx: &mut Ctx) {
             }
         }
     }
+    // a capital return that is larger, per share, than a cheap lot's own cost (but within the cost of all the
+    // lots together): every pound of it must still come off some leg or off the closing holding
+    let mut cases = cases;
+    {
+        use rust_decimal::Decimal;
+        let mut r = crate::rng::Rng::new(ctx.seed ^ 0xC03);
+        for i in 0..ctx.n(30, 1500) {
+            let d0 = ledger::d(2021 + r.below(3) as i32, 1 + r.below(12) as u32, 1 + r.below(28) as u32);
+            let (q1, q2) = (Decimal::from(r.range(10, 200)), Decimal::from(r.range(10, 200)));
+            let low = Decimal::new(r.range(1, 300), 2);
+            let high = Decimal::from(r.range(8, 60));
+            let total_cost = q1 * low + q2 * high;
+            // per share above the cheap lot's price, in total below what the lots cost
+            let per_share_floor = low * (q1 + q2);
+            let v = (per_share_floor + (total_cost - per_share_floor) * Decimal::new(r.range(5, 90), 2)).round_dp(2);
+            if v <= per_share_floor || v >= total_cost { continue; }
+            let mut l: Ledger = vec![
+                GTx::new(d0, "AAA", Kind::Buy, q1, low, Decimal::ZERO),
+                GTx::new(d0 + chrono::Duration::days(r.range(1, 200)), "AAA", Kind::Buy, q2, high, ledger::gen_fee(&mut r, true)),
+            ];
+            let dc = l[1].date + chrono::Duration::days(r.range(1, 100));
+            l.push(GTx::new(dc, "AAA", Kind::CapReturn, q1 + q2, v, Decimal::ZERO));
+            if r.chance(2, 3) { l.push(GTx::new(dc + chrono::Duration::days(r.range(0, 90)), "AAA", Kind::Sell, Decimal::from(r.range(1, 9)), high, Decimal::ZERO)); }
+            if r.chance(1, 3) { l.push(GTx::new(dc + chrono::Duration::days(r.range(0, 40)), "AAA", Kind::Buy, Decimal::from(r.range(1, 50)), high, Decimal::ZERO)); }
+            if r.chance(1, 3) { r.shuffle(&mut l); }
+            cases.push((format!("cheap-lot#{i}"), l));
+        }
+    }
+    let mut cli_left: u32 = if ctx.tier == Tier::Quick { 8 } else { 80 };
     for (name, l) in cases {
+        if cli_left > 0 && well_formed(&l) && l.len() >= 3 { cli_left -= 1; cli_crosscheck(ctx, prop, &l, None); }
         if !well_formed(&l) { continue; }
         ctx.ev.evaluations += 1;
         let imp = run_impl::impl_match(&l);
